@@ -397,7 +397,7 @@ mod verif_in_context {
     /// kind: 1 = PUBLISH QoS 1, 2 = PUBLISH QoS 2, 3 = PUBREL, 4 = UNSUBSCRIBE-like AwaitAck,
     /// 5 = PINGREQ AwaitAck, 6 = FireAndForget (QoS 0 PUBLISH), 7 = FireAndForget (DISCONNECT),
     /// 8 = Subscribe
-    fn step_msg_body(kind: u8) {
+    fn step_msg_body(kind: u8, cancelled: bool) {
         let mut cx = task_cx();
         let mut tx = TxPacketStream::from(VecTx::new());
         let r: u16 = kani::any();
@@ -452,6 +452,12 @@ mod verif_in_context {
         let (sa, mut ra) = oneshot::channel::<Result<RxPacket, MqttError>>();
         let (sf, mut rf) = oneshot::channel::<Result<(), MqttError>>();
         let (st, mut rt) = mpsc::unbounded::<RxPacket>();
+        if cancelled {
+            // the caller dropped the operation's future after queueing the request
+            ra.close();
+            rf.close();
+            rt.close();
+        }
         let msg = match kind {
             1..=5 => ContextMessage::AwaitAck(AwaitAck { action_id: aid, packet, response_channel: sa }),
             6 | 7 => ContextMessage::FireAndForget(FireAndForget { packet, response_channel: sf }),
@@ -461,7 +467,7 @@ mod verif_in_context {
             let mut f = core::pin::pin!(CtxV::handle_message(&mut tx, &mut connection, &mut session, msg));
             match core::future::Future::poll(f.as_mut(), &mut cx) {
                 core::task::Poll::Ready(Ok(())) => {}
-                _ => panic!("the step completes with Ok while all callers are alive and the transport accepts the bytes"),
+                _ => panic!("the step completes with Ok when the transport accepts the bytes, whether or not the caller is still there"),
             }
         }
         assert!(connection.remote_receive_maximum == r && connection.remote_max_packet_size == mps, "the limits announced by the server are not touched");
@@ -472,7 +478,9 @@ mod verif_in_context {
             assert!(out_n() == 0, "a refused request writes not a single byte");
             assert!(connection.send_quota == q, "a refused request takes no quota slot");
             assert!(session.awaiting_ack.len() == 1 && session.retrasmit_queue.len() == 1 && session.subscriptions.is_empty(), "a refused request leaves no waiter, retransmit entry or stream registration behind");
-            if kind == 6 || kind == 7 {
+            if cancelled {
+                // nobody is listening; only the bookkeeping above matters
+            } else if kind == 6 || kind == 7 {
                 match rf.try_recv() {
                     Ok(Some(Err(MqttError::MaximumPacketSizeExceeded(_)))) => {}
                     _ => panic!("the caller is told MaximumPacketSizeExceeded"),
@@ -498,29 +506,29 @@ mod verif_in_context {
                     let stored = &session.retrasmit_queue[1].1;
                     assert!(stored.len() == len && stored[0] == first | 0x08, "the stored copy has DUP=1");
                     assert!(stored[5] == idh && stored[6] == idl && stored[4] == b't', "the stored copy carries the same identifier and content");
-                    assert!(matches!(ra.try_recv(), Ok(None)), "the operation stays pending until its acknowledgement");
+                    assert!(cancelled || matches!(ra.try_recv(), Ok(None)), "the operation stays pending until its acknowledgement");
                 }
                 3 => {
                     assert!(session.awaiting_ack.len() == 2 && session.awaiting_ack[1].0 == aid, "waiter appended");
                     assert!(session.retrasmit_queue.len() == 2 && session.retrasmit_queue[1].0 == aid, "PUBREL stored for retransmission");
                     let stored = &session.retrasmit_queue[1].1;
                     assert!(stored.len() == 4 && stored[0] == 0x62 && stored[2] == idh && stored[3] == idl, "the stored PUBREL is unchanged");
-                    assert!(matches!(ra.try_recv(), Ok(None)), "pending until PUBCOMP");
+                    assert!(cancelled || matches!(ra.try_recv(), Ok(None)), "pending until PUBCOMP");
                 }
                 4 | 5 => {
                     assert!(session.awaiting_ack.len() == 2 && session.awaiting_ack[1].0 == aid, "waiter appended");
                     assert!(session.retrasmit_queue.len() == 1, "only PUBLISH and PUBREL are kept for retransmission");
-                    assert!(matches!(ra.try_recv(), Ok(None)), "pending until acknowledged");
+                    assert!(cancelled || matches!(ra.try_recv(), Ok(None)), "pending until acknowledged");
                 }
                 6 | 7 => {
                     assert!(session.awaiting_ack.len() == 1 && session.retrasmit_queue.len() == 1, "fire-and-forget leaves nothing behind");
-                    assert!(matches!(rf.try_recv(), Ok(Some(Ok(())))), "completed once written");
+                    assert!(cancelled || matches!(rf.try_recv(), Ok(Some(Ok(())))), "completed once written");
                 }
                 _ => {
                     assert!(session.awaiting_ack.len() == 2 && session.awaiting_ack[1].0 == aid, "waiter appended");
                     assert!(session.subscriptions.len() == 1 && session.subscriptions[0].0 == sub_id, "stream registered under the subscription identifier when the SUBSCRIBE is sent");
                     assert!(session.retrasmit_queue.len() == 1, "SUBSCRIBE is not kept for retransmission");
-                    assert!(matches!(ra.try_recv(), Ok(None)), "pending until SUBACK");
+                    assert!(cancelled || matches!(ra.try_recv(), Ok(None)), "pending until SUBACK");
                 }
             }
             assert!(session.subscriptions.len() == if kind == 8 { 1 } else { 0 }, "stream registrations only for subscribe");
@@ -537,10 +545,13 @@ mod verif_in_context {
 
     macro_rules! step_msg {
         ($name:ident, $kind:expr) => {
+            step_msg!($name, $kind, false);
+        };
+        ($name:ident, $kind:expr, $cancelled:expr) => {
             #[kani::proof]
             #[kani::unwind(12)]
             pub(crate) fn $name() {
-                step_msg_body($kind);
+                step_msg_body($kind, $cancelled);
             }
         };
     }
@@ -563,6 +574,16 @@ mod verif_in_context {
     step_msg!(step_msg_publish_q0, 6);
     step_msg!(step_msg_disconnect, 7);
     step_msg!(step_msg_subscribe, 8);
+
+    //@ h name=step_msg_publish_q1_cancelled props=C15,C10,C12 tier=quick cap=small to=1200
+    //@ h name=step_msg_publish_q0_cancelled props=C15,C12 tier=quick cap=small to=1200
+    //@ h name=step_msg_subscribe_cancelled props=C15,C12 tier=thorough cap=small to=1200
+    //@ claim: the same handle_message step when the caller has already dropped the operation's future (its response channel and stream are closed): the step still returns Ok, so run() keeps serving; refusals (Maximum Packet Size, quota) still write nothing and leave nothing behind; an accepted request is still written once and registered exactly as for a live caller, so that its late acknowledgement finds its waiter and frees the quota slot
+    //@ bounds: as step_msg_*; request kinds PUBLISH QoS 1, PUBLISH QoS 0 (fire-and-forget), SUBSCRIBE
+    //@ funcs: Context::handle_message, Context::validate_packet_size, TxPacketStream::write
+    step_msg!(step_msg_publish_q1_cancelled, 1, true);
+    step_msg!(step_msg_publish_q0_cancelled, 6, true);
+    step_msg!(step_msg_subscribe_cancelled, 8, true);
 
     // ------------------------------------------------------------------ probes: handle_packet
     fn fresh_state(r: u16, q: u16) -> (Connection, Session) {
@@ -816,5 +837,65 @@ mod verif_in_context {
         }
         assert!(out_n() == 3);
         kani::cover!(out_n() == 3, "three");
+    }
+
+    // ------------------------------------------------------------------ run(): the resume prefix
+    /// select!'s random polling order: any order
+    pub(crate) fn shuffle_stub<T>(slice: &mut [T]) {
+        if slice.len() == 2 && kani::any() {
+            slice.swap(0, 1);
+        }
+    }
+
+    //@ h name=run_resume props=C17,C13,C16 tier=off cap=small to=1800 mem=30
+    //@ claim: experiment: run() on a context that recorded a disconnection: an unexpired session re-sends the stored packet before anything else and keeps the waiter pending; an expired one sends nothing and fails the abandoned operation (its sender is dropped); run() then stays Pending while neither the server nor a caller does anything
+    //@ bounds: one stored PUBLISH of 4 bytes with its waiter; expiry interval and elapsed time symbolic (clock stub); reader always Pending, message queue empty with a live handle
+    //@ funcs: Context::run, Context::is_reconnect, Context::session_expired, Context::reset_session, Context::retransmit
+    #[kani::proof]
+    #[kani::unwind(4)]
+    #[kani::stub(std::time::SystemTime::elapsed, elapsed_stub)]
+    #[kani::stub(futures_util::__private::async_await::shuffle, shuffle_stub)]
+    pub(crate) fn run_resume() {
+        let mut cx = task_cx();
+        let interval: u32 = kani::any();
+        let secs: u64 = kani::any();
+        ELAPSED_SECS.store(secs, Ordering::Relaxed);
+        ELAPSED_NANOS.store(0, Ordering::Relaxed);
+        let (sender, receiver) = mpsc::unbounded::<ContextMessage>();
+        let (s0, mut rcv0) = oneshot::channel::<Result<RxPacket, MqttError>>();
+        static STORED: [u8; 4] = [0x3a, 2, 0, 7];
+        let mut session = Session { awaiting_ack: VecDeque::new(), subscriptions: VecDeque::new(), retrasmit_queue: VecDeque::new() };
+        session.awaiting_ack.push_back((0x0400_0700, s0));
+        session.retrasmit_queue.push_back((0x0400_0700, Bytes::from_static(&STORED)));
+        let mut ctx: CtxV = Context {
+            rx: Some(RxPacketStream::from(NoRx)),
+            tx: Some(TxPacketStream::from(VecTx::new())),
+            message_queue: receiver,
+            session,
+            connection: Connection { disconnection_timestamp: Some(std::time::UNIX_EPOCH), session_expiry_interval: interval, remote_receive_maximum: 10, remote_max_packet_size: None, send_quota: 9 },
+        };
+        {
+            let mut f = core::pin::pin!(ctx.run());
+            match core::future::Future::poll(f.as_mut(), &mut cx) {
+                core::task::Poll::Pending => {}
+                _ => panic!("run() does not return while nothing has happened"),
+            }
+            core::mem::forget(f);
+        }
+        let expired = interval == 0 || (interval != u32::MAX && secs > interval as u64);
+        let alive = interval == u32::MAX || (interval != 0 && secs < interval as u64);
+        if expired {
+            assert!(out_n() == 0, "expired session: nothing is re-sent");
+            assert!(matches!(rcv0.try_recv(), Err(_)), "expired session: the abandoned operation fails instead of hanging");
+        }
+        if alive {
+            assert!(out_n() == 4 && out(0) == 0x3a && out(1) == 2 && out(2) == 0 && out(3) == 7, "live session: the stored PUBLISH is re-sent, DUP=1, same identifier");
+            assert!(matches!(rcv0.try_recv(), Ok(None)), "live session: the original operation keeps waiting for its acknowledgement");
+        }
+        kani::cover!(expired && interval != 0, "interval elapsed");
+        kani::cover!(alive && interval != u32::MAX, "within a finite interval");
+        core::mem::forget(ctx);
+        core::mem::forget(sender);
+        core::mem::forget(rcv0);
     }
 }
